@@ -219,6 +219,38 @@ def environment_independence(ctx, games, clause, fields=None):
                     ctx.violation(clause, {"game": gen.desc(g), "prune": prune, "environment": label},
                                   {"plain": [x[:200] for x in base], label: [x[:200] for x in got]})
                     return
+            # (a2) warnings turned into errors (python -W error / PYTHONWARNINGS=error / pytest filterwarnings=error)
+            import warnings
+            with warnings.catch_warnings():
+                warnings.simplefilter("error")
+                got = pick(impl.solve(g, prune, want_nodes=False))
+            if got != base:
+                ctx.violation(clause, {"game": gen.desc(g), "prune": prune, "environment": "warnings are errors (-W error)"},
+                              {"plain": [x[:200] for x in base], "-W error": [x[:200] for x in got]})
+                return
+            # (a3) a solve started from another thread than the main one (a server / GUI worker)
+            import threading
+            from crlib import repo, quiet
+            box = {}
+
+            def work():
+                try:
+                    tad = repo("tad")
+                    d = {k: v for k, v in gen.desc(g).items()}
+                    r = tad.StochasticGame(**d, prune_states=prune).solve()
+                    box["r"] = {"outcome": "ok", "res": [list(x) if isinstance(x, (list, tuple)) else x for x in r]}
+                except Exception as e:  # noqa
+                    box["r"] = {"outcome": impl.err_kind(e), "msg": str(e)[:200]}
+            with quiet():
+                th = threading.Thread(target=work, daemon=True)
+                th.start()
+                th.join(30)
+            if "r" in box:
+                got = pick(box["r"])
+                if got != base:
+                    ctx.violation(clause, {"game": gen.desc(g), "prune": prune, "environment": "solve() called from a non-main thread"},
+                                  {"plain": [x[:200] for x in base], "worker thread": [x[:200] for x in got], "msg": box["r"].get("msg")})
+                    return
             # (b) environment variables
             reads = []
             real = os.environ
@@ -345,7 +377,7 @@ def odd_label_invariance(ctx, games, clause, rng, fields=None):
 
 def round5_passes(ctx, rng, games, prefix, fields=None):
     """the history / environment / naming passes every solver property gets (DESIGN.md 12.6)"""
-    environment_independence(ctx, games, prefix + "-independent-of-process-environment", fields)
+    environment_independence(ctx, list(games) + [gen.all_dead_game(rng)], prefix + "-independent-of-process-environment", fields)
     described_at_solve_time(ctx, games, prefix + "-of-the-description-at-solve-time", fields)
     odd_label_invariance(ctx, games, prefix + "-unchanged-by-odd-action-names", rng, fields)
 
